@@ -76,6 +76,7 @@ def optimize_prec_assignment(model: MPS,
                 else:
                     raise ValueError("Unsupported quantizer type")
 
+                n_channels = layer.w_mps_quantizer.theta_alpha.shape[1]
                 best_cost = copy.deepcopy(base_cost)
                 config_cost = _compute_cost(model, layer, w_theta_alpha_array, cost_fn_map, lname, node)
                 assert config_cost == base_cost, "The cost of the layer is not consistent with the original configuration"
@@ -96,8 +97,10 @@ def optimize_prec_assignment(model: MPS,
                     for j in range(i + 1, len(sorted_precisions)):
                         w_theta_alpha_array_tmp = [copy.deepcopy(w_theta_alpha_array)[i] for i in sorted_indexes]
                         while w_theta_alpha_array_tmp[i] > 0:
-                            w_theta_alpha_array_tmp[i] -= (1. / layer.w_mps_quantizer.theta_alpha.shape[1])
-                            w_theta_alpha_array_tmp[j] += (1. / layer.w_mps_quantizer.theta_alpha.shape[1])
+                            # move one channel; round to whole channels so that float32 drift can neither
+                            # make the loop overshoot below zero nor let the final counts be truncated
+                            w_theta_alpha_array_tmp[i] = torch.round(w_theta_alpha_array_tmp[i] * n_channels - 1) / n_channels
+                            w_theta_alpha_array_tmp[j] = torch.round(w_theta_alpha_array_tmp[j] * n_channels + 1) / n_channels
                             cost_tmp = _compute_cost(model, layer, [w_theta_alpha_array_tmp[k] for k in inverse_indexes],
                                                      cost_fn_map, lname, node)
                             if cost_tmp < best_cost:
@@ -122,8 +125,10 @@ def optimize_prec_assignment(model: MPS,
                         continue
                     for j in range(i + 1, len(sorted_precisions)):
                         while w_theta_alpha_array_tmp[i] > 0:
-                            w_theta_alpha_array_tmp[i] -= (1. / layer.w_mps_quantizer.theta_alpha.shape[1])
-                            w_theta_alpha_array_tmp[j] += (1. / layer.w_mps_quantizer.theta_alpha.shape[1])
+                            # move one channel; round to whole channels so that float32 drift can neither
+                            # make the loop overshoot below zero nor let the final counts be truncated
+                            w_theta_alpha_array_tmp[i] = torch.round(w_theta_alpha_array_tmp[i] * n_channels - 1) / n_channels
+                            w_theta_alpha_array_tmp[j] = torch.round(w_theta_alpha_array_tmp[j] * n_channels + 1) / n_channels
                             cost_tmp = _compute_cost(model, layer, [w_theta_alpha_array_tmp[k] for k in inverse_indexes],
                                                      cost_fn_map, lname, node)
                             if cost_tmp < best_cost:
@@ -142,7 +147,7 @@ def optimize_prec_assignment(model: MPS,
 
                 # Sort the best configuration according to the original order of the precisions
                 best_theta_alpha_array = torch.tensor([best_cost_w_theta_alpha_array[i] for i in inverse_indexes])
-                best_theta_alpha_array = torch.mul(best_theta_alpha_array, layer.w_mps_quantizer.theta_alpha.shape[1])
+                best_theta_alpha_array = torch.round(torch.mul(best_theta_alpha_array, n_channels))
 
                 # Update the layer with the best configuration.
                 # Modify only the alpha parameter of each layer, and not the theta_alpha, to avoid
